@@ -195,6 +195,9 @@ func perturbKey(rt *rapid.T, name string, o DocOpts) string {
 		return name + "x"
 	case 4:
 		return rapid.SampledFrom([]string{"unknown", "", "zz", "-", "A", "a", "x", "X", "y", "Y"}).Draw(rt, "otherkey")
+	case 6:
+		// the name followed by NUL bytes (a lookup that compares zero-padded words must not match it)
+		return name + strings.Repeat("\x00", rapid.IntRange(1, 3).Draw(rt, "nuls"))
 	case 5:
 		// a proper prefix of the name (word-at-a-time key comparison must not match it)
 		if len(name) > 1 && name[len(name)-1] < 0x80 {
@@ -212,6 +215,12 @@ func quoteKey(rt *rapid.T, k string) string {
 		r := []rune(k)
 		if r[0] < 0x10000 && r[0] != 0xFFFD {
 			return fmt.Sprintf("\"\\u%04x%s", r[0], strconv.Quote(string(r[1:]))[1:])
+		}
+	}
+	for i := 0; i < len(k); i++ {
+		if k[i] < 0x20 || k[i] == 0x7f {
+			q, _ := stdjson.Marshal(k) // strconv.Quote would write \x00, which is not a JSON escape
+			return string(q)
 		}
 	}
 	return strconv.Quote(k)
